@@ -144,6 +144,12 @@ def check_case(case):
                 break
         out += _case_variant("cusip", utils.cusip_checksum, base, exp)
         if all(c in ALNUM for c in base):
+            for nat in ("US", "CA", "GB"):
+                wrapped = nat + full + ref_isin(nat + full)  # a valid ISIN embedding this CUSIP: 12 characters, not a CUSIP
+                if not _never_validates(utils.validate_cusip, wrapped):
+                    out.append(("cusip-length", f"validate_cusip({wrapped!r}) accepts an ISIN"))
+                    break
+        if all(c in ALNUM for c in base):
             nation = case.get("nation")
             try:
                 isin = utils.cusip2isin(full, nation) if nation else utils.cusip2isin(full)
